@@ -299,8 +299,11 @@ RCP<const Set> Complexes::set_union(const RCP<const Set> &o) const
         return complexes();
     } else if (is_a<FiniteSet>(*o)) {
         return (*o).set_union(rcp_from_this_cast<const Set>());
+    } else if (is_a<UniversalSet>(*o)) {
+        return universalset();
     } else {
-        return SymEngine::set_union({rcp_from_this_cast<const Set>(), o});
+        // (the n-ary set_union would call back into this function)
+        return SymEngine::make_set_union({rcp_from_this_cast<const Set>(), o});
     }
 }
 
@@ -376,8 +379,11 @@ RCP<const Set> Reals::set_union(const RCP<const Set> &o) const
         return reals();
     } else if (is_a<FiniteSet>(*o) or is_a<Complexes>(*o)) {
         return (*o).set_union(rcp_from_this_cast<const Set>());
+    } else if (is_a<UniversalSet>(*o)) {
+        return universalset();
     } else {
-        return SymEngine::set_union({rcp_from_this_cast<const Set>(), o});
+        // (the n-ary set_union would call back into this function)
+        return SymEngine::make_set_union({rcp_from_this_cast<const Set>(), o});
     }
 }
 
@@ -454,8 +460,11 @@ RCP<const Set> Rationals::set_union(const RCP<const Set> &o) const
         return rationals();
     } else if (is_a<FiniteSet>(*o) or is_a<Reals>(*o) or is_a<Complexes>(*o)) {
         return (*o).set_union(rcp_from_this_cast<const Set>());
+    } else if (is_a<UniversalSet>(*o)) {
+        return universalset();
     } else {
-        return SymEngine::set_union({rcp_from_this_cast<const Set>(), o});
+        // (the n-ary set_union would call back into this function)
+        return SymEngine::make_set_union({rcp_from_this_cast<const Set>(), o});
     }
 }
 
